@@ -37,7 +37,7 @@ MANIFEST = {
 }
 PROPERTY_FILES = ['Properties/C06.v']
 REFUTED_FILES = ['Refuted/C06.v']
-MODEL_FILES = ['SF/SetAlg.v', 'SF/SetAlgVal.v', 'SF/LabelAlign.v', 'SF/LabelAlignVal.v', 'SF/FrameAlign.v', 'SF/FrameAlignVal.v']
+MODEL_FILES = ['Gen/Gen_c06.v', 'SF/SetAlg.v', 'SF/SetAlgVal.v', 'SF/LabelAlign.v', 'SF/LabelAlignVal.v', 'SF/FrameAlign.v', 'SF/FrameAlignVal.v']
 TRANSLATED = ['resolve_dtype']
 IMPORTS = 'Require Import SF.Prelude SF.Dtype SF.Value SF.SetAlg SF.SetAlgVal SF.LabelAlign SF.LabelAlignVal SF.FrameAlign SF.FrameAlignVal.'
 RULE = ('API strata call only public methods (Index.union/intersection/difference, the operator dunders of Series / Frame / Frame.via_T, Frame.reindex) on inputs '
@@ -147,6 +147,21 @@ def generate(repo):
         raise ValueError('Index._ufunc_set: expected one equals() call')
     eq_dtype = kw_const(eq_calls[0], 'compare_dtype')
 
+    # Index.equals (the equal-operands shortcut of set operations, operators and reindex): isna_both = isna_array(X.values, ...) & isna_array(Y.values, ...)
+    ieq = find_def(index, 'equals')
+    masks = [n for n in ast.walk(ieq) if isinstance(n, ast.Assign) and len(n.targets) == 1
+             and isinstance(n.targets[0], ast.Name) and n.targets[0].id == 'isna_both']
+    if len(masks) != 1 or not (isinstance(masks[0].value, ast.BinOp) and isinstance(masks[0].value.op, ast.BitAnd)):
+        raise ValueError('Index.equals: expected exactly one `isna_both = <x> & <y>`')
+    mask_sides = []
+    for side in (masks[0].value.left, masks[0].value.right):
+        ok = (isinstance(side, ast.Call) and isinstance(side.func, ast.Name) and side.func.id == 'isna_array' and len(side.args) == 1
+              and isinstance(side.args[0], ast.Attribute) and side.args[0].attr == 'values' and isinstance(side.args[0].value, ast.Name)
+              and side.args[0].value.id in ('self', 'other') and kw_const(side, 'include_none') is False)
+        if not ok:
+            raise ValueError('Index.equals: mask operand is not isna_array(<self|other>.values, include_none=False)')
+        mask_sides.append(side.args[0].value.id)
+
     ic = find_class(parse('static_frame/core/index_correspondence.py'), 'IndexCorrespondence')
     fc = find_def(ic, 'from_correspondence')
     ic_calls = calls(fc, 'intersect1d') + calls(fc, 'intersect2d')
@@ -184,6 +199,8 @@ Definition src_frame_reindex_check_equals_default : string := "{f_ce_default}".
 Definition src_index_set_assume_unique_ndarray : bool := {b(au_array[0])}.
 Definition src_index_set_assume_unique_index : bool := {b(au_index[0])}.
 Definition src_index_set_equals_compares_dtype : bool := {b(eq_dtype)}.
+(* Index.equals(skipna=True): the two operands of `isna_both = isna_array(<x>.values) & isna_array(<y>.values)` *)
+Definition src_index_equals_mask_operands : list string := {strs(mask_sides)}.
 (* IndexCorrespondence.from_correspondence: assume_unique of intersect1d / intersect2d *)
 Definition src_correspondence_assume_unique : list bool := [{'; '.join(b(x) for x in ic_au)}].
 """
@@ -1144,6 +1161,106 @@ def hier_shared_cases(ctx):
                     yield from frame_pair_cases(ctx, fa, fb, ['int', 'int'], ['int', 'int'], 'sub', 'api:frame-op-frame:shared-inner')
 
 
+def nan_label_cases(ctx):
+    """One operand holds a NaN (NaT) label at a position where the other holds an ordinary label; same length, all
+    other positions equal; both operand orders.  Only what the property determines is compared: the ORDINARY labels of
+    the result (and their values) must be what set algebra / alignment prescribes; the NaN label itself is undetermined.
+    Index.equals (the equal-operands shortcut of every alignment path) is also observed against its model."""
+    import static_frame as sf
+    rng = ctx.rng
+
+    def isnan(x):
+        return x is None or (isinstance(x, float) and x != x) or (isinstance(x, (np.datetime64,)) and np.isnat(x))
+
+    def ordinary(labels):
+        return [x for x in labels if not isnan(x)]
+
+    def mk(kind, labels):
+        if kind == 'float':
+            return sf.Index(np.array(labels, dtype=np.float64))
+        return sf.IndexDate(np.array(labels, dtype='datetime64[D]'))
+
+    def key(x):
+        return x.item() if isinstance(x, np.generic) and not isinstance(x, np.datetime64) else x
+
+    base = {'float': [3.0, 1.0, 2.0, 5.0], 'date': [np.datetime64('2020-01-03'), np.datetime64('2020-01-01'), np.datetime64('2020-01-02'), np.datetime64('2020-01-05')]}
+    nan = {'float': np.nan, 'date': np.datetime64('NaT')}
+    for kind in ('float', 'date'):
+        for n in (1, 2, 3, 4):
+            for pos in range(n):
+                for both in (False, True):
+                    la = list(base[kind][:n])
+                    lb = list(la)
+                    lb[pos] = nan[kind]
+                    if both:
+                        la = list(lb)                       # NaN at the same position on both sides: equal indices
+                    for x_l, y_l, order in ((la, lb, 'nan-in-argument'), (lb, la, 'nan-in-receiver')):
+                        x, y = mk(kind, x_l), mk(kind, y_l)
+                        tags = {'kind': 'nan-label', 'labels': kind, 'order': order, 'both': both}
+                        ox, oy = [key(v) for v in ordinary(lit.labels(x))], [key(v) for v in ordinary(lit.labels(y))]
+                        want = {'union': set(ox) | set(oy), 'intersection': set(ox) & set(oy), 'difference': set(ox) - set(oy)}
+                        # Index.equals against its model (mask operands regenerated from the source)
+                        eq = bool(x.equals(y))
+                        lx, ly = lit.vlist(lit.labels(x)), lit.vlist(lit.labels(y))
+                        ctx.count('nan-label:equals', f'nan-label:{kind}')
+                        yield Case('api:index.equals:nan-label', {'call': f'Index({x_l!r}).equals(Index({y_l!r}))', 'observed': eq},
+                                   m=f'MEQ {lx} {ly} {lit.b(eq)}', s=f'SEQ {lx} {ly} {lit.b(eq)}', tags=dict(tags, op='equals'))
+                        for opname, _ in OPS:
+                            fail = None
+                            try:
+                                got = [key(v) for v in ordinary(lit.labels(getattr(x, opname)(y)))]
+                                if len(got) != len(set(got)) or set(got) != want[opname]:
+                                    fail = f'ordinary labels of {opname}: {sorted(map(str, got))}, set algebra prescribes {sorted(map(str, want[opname]))}'
+                            except Exception as e:  # noqa
+                                got, fail = type(e).__name__, f'{opname} raised {type(e).__name__}: {e}'
+                            ctx.count(f'nan-label:{opname}')
+                            yield Case(f'api:index.{opname}:nan-label', {'call': f'Index({x_l!r}).{opname}(Index({y_l!r}))', 'ordinary_labels_observed': repr(got)},
+                                       py_fail=fail, tags=dict(tags, op=opname), nontrivial=not both)
+                        # Series / Frame operators: value by ordinary label
+                        vx = [int(v) for v in gen_values(rng, n, 'int', 'num')]
+                        vy = [int(v) for v in gen_values(rng, n, 'int', 'num')]
+                        for opname, fn in (('add', lambda p, q: p + q), ('sub', lambda p, q: p - q)):
+                            dunder = BINOPS[opname][0]
+                            dx = {key(l): v for l, v in zip(lit.labels(x), vx) if not isnan(l)}
+                            dy = {key(l): v for l, v in zip(lit.labels(y), vy) if not isnan(l)}
+                            spec = {l: (fn(dx[l], dy[l]) if l in dx and l in dy else None) for l in set(dx) | set(dy)}
+                            for container in ('series', 'frame'):
+                                fail = None
+                                try:
+                                    if container == 'series':
+                                        r = getattr(sf.Series(np.array(vx, dtype=np.int64), index=x), dunder)(sf.Series(np.array(vy, dtype=np.int64), index=y))
+                                        rows = list(zip(lit.labels(r.index), lit.array_vals(r.values)))
+                                    else:
+                                        fx = zoo.frame_from_columns([np.array(vx, dtype=np.int64)] * 2, ((2, True),), index=x, columns=make_index(('p', 'q'), 'str'))
+                                        fy = zoo.frame_from_columns([np.array(vy, dtype=np.int64)] * 2, ((1, False), (1, True)), index=y, columns=make_index(('p', 'q'), 'str'))
+                                        r = getattr(fx, dunder)(fy)
+                                        c0, c1 = [lit.array_vals(a) for a in r.iter_array(axis=0)]
+                                        if any(not (p == q or (p != p and q != q)) for p, q in zip(c0, c1)):
+                                            fail = 'the two identical columns of the result differ'
+                                        rows = list(zip(lit.labels(r.index), c0))
+                                    seen = {}
+                                    for l, v in rows:
+                                        if not isnan(l):
+                                            if key(l) in seen:
+                                                fail = f'label {l} twice'
+                                            seen[key(l)] = v
+                                    if fail is None and set(seen) != set(spec):
+                                        fail = f'ordinary labels {sorted(map(str, seen))}, alignment prescribes {sorted(map(str, spec))}'
+                                    if fail is None:
+                                        for l, w in spec.items():
+                                            v = seen[l]
+                                            if (w is None and v == v) or (w is not None and v != w):
+                                                fail = f'at label {l}: {v}, alignment prescribes {"the missing marker" if w is None else w}'
+                                                break
+                                    obs = repr([(str(l), v) for l, v in rows])
+                                except Exception as e:  # noqa
+                                    obs, fail = type(e).__name__, f'{dunder} raised {type(e).__name__}: {e}'
+                                ctx.count(f'nan-label:{container}:{opname}')
+                                yield Case(f'api:{container}-op-{container}:nan-label',
+                                           {'call': f'{container}(values {vx}, index {x_l!r}).{dunder}({container}(values {vy}, index {y_l!r}))', 'observed': obs},
+                                           py_fail=fail, tags=dict(tags, op=opname, container=container), nontrivial=not both)
+
+
 def witnesses(ctx):
     """Fixed inputs: one minimal case per known finding (so that every listed finding is re-derived in every run)."""
     import static_frame as sf
@@ -1179,7 +1296,7 @@ def cases(ctx):
     only = os.environ.get('C06_ONLY')          # debugging aid: substring filter on the stratum name
     with warnings.catch_warnings():
         warnings.simplefilter('ignore')
-        for gen in (witnesses, index_exhaustive, index_random, index_hierarchy_cases, hier_shared_cases, kernel_set_cases, kernel_correspondence_cases,
+        for gen in (witnesses, index_exhaustive, index_random, index_hierarchy_cases, hier_shared_cases, nan_label_cases, kernel_set_cases, kernel_correspondence_cases,
                     malformed_cases, series_exhaustive, series_random, series_scalar_array,
                     frame_layouts_exhaustive, frame_random, frame_series_cases, frame_scalar_array, frame_reindex_cases):
             for c in gen(ctx):
